@@ -22,13 +22,16 @@ def P(pid, rules, explanation, not_decided, assumptions=(), design="3"):
                           assumptions=list(assumptions), design=f"DESIGN.md section {design}")
 
 
-P("C01", ["IDX", "RETRY", "SIGN", "FREE"],
+P("C01", ["IDX", "RETRY", "SIGN", "FREE", "CPFORM", "ARGNAME", "DIRECTION", "RATIOFORM"],
   "Structural necessary conditions of C01, decided on every path of the source: (IDX) index-space typing of "
   "get_cauchy_point shows the sorted breakpoint list is filtered and walked in its own rank space, so variables "
   "resting on a bound with the gradient pushing outward (t = 0) cannot scramble the breakpoint order -- the "
   "defect behind the stalls the property names; (RETRY) a failed line search aborts only after a retry from a "
   "memory cut to its newest point; (SIGN) breakpoints / step bounds are non-negative on both branches; (FREE) "
-  "the free set is symmetric in both bounds.",
+  "the free set is symmetric in both bounds and computed from the current Cauchy point; (CPFORM) the Cauchy-point "
+  "formulas incl. d = 0 on variables resting on a bound with the gradient pushing outward; (ARGNAME, DIRECTION) the "
+  "iteration pipeline x -> Cauchy point -> subspace point -> direction is wired without crossed slots; (RATIOFORM) "
+  "bound ratios are (bound - point)/direction.",
   "convergence to a KKT point, the level reached by the projected gradient, absence of stalls in general "
   "(floating-point trajectories over all convex objectives)", design="3/C01")
 P("C02", ["BOX", "SIGN", "FDB"],
@@ -96,10 +99,13 @@ P("C09", ["SIGN", "ALPHA", "FREE", "RATIOFORM"],
   "branches; (ALPHA) the truncation factor is min(1, nonneg) and multiplies the whole step once; (FREE) free set = "
   "strictly interior variables of the Cauchy point, active set its complement, step enters only through Z.",
   "exact subspace Newton point, model decrease, descent direction (numerical linear algebra)", design="3/C09")
-P("C10", ["MEM"],
+P("C10", ["MEM", "BFGSFORM", "OFFER"],
   "The four memory-discipline clauses of C10 are decided package-wide over every insertion / removal / rebinding "
   "of the point and gradient histories (MEM): guarded by the strict curvature test on the inserted pair, "
-  "reject-no-touch for history and matrices, bounded FIFO (<= maxcor pairs, oldest dropped), lock-step of X and G.",
+  "reject-no-touch for history and matrices, bounded FIFO (<= maxcor pairs, oldest dropped), lock-step of X and G; "
+  "(BFGSFORM) theta = y.y/s.y of the newest pair and S, Y, L, D, W, the middle-matrix factors assembled from the "
+  "histories as in the compact representation (normalised matrix expressions); (OFFER) every accepted step is "
+  "offered to the memory.",
   "equality of the compact representation with dense BFGS, positive definiteness, secant equation (matrix "
   "identities in floating point)", design="3/C10")
 P("C11", ["BOX", "DOWNHILL", "LSBUD", "SIGN", "RATIOFORM"],
@@ -108,17 +114,26 @@ P("C11", ["BOX", "DOWNHILL", "LSBUD", "SIGN", "RATIOFORM"],
   "evaluation per loop iteration, counter guard `< max_iter`, SciPy's DCSRCH._iterate calls no user function "
   "(checked on SciPy's source); (SIGN) the maximum step is non-negative.",
   "step in (0, stpmax] inside SciPy's DCSRCH (trusted contract)", design="3/C11")
-P("C12", ["CONST", "BIND"],
+P("C12", ["CONST", "BIND", "ARGNAME", "DIRECTION", "OFFER", "STEPINIT", "BFGSFORM", "CPFORM", "ESC", "SF4", "NITOFF"],
   "(CONST) the evaluated defaults of the line-search / curvature constants equal those of Algorithm 778 at every "
   "sibling signature; (BIND) each constant reaches its consumer in the right slot (minimize -> line_search -> "
-  "DCSRCH / dcsrch; eps_SY -> update_lbfgs_matrices / filter -> is_update_X_and_G).",
-  "iterate-by-iterate agreement with the Fortran reference, theta formula, two-loop algebra (numerical)",
+  "DCSRCH / dcsrch; eps_SY -> update_lbfgs_matrices / filter -> is_update_X_and_G); structural faithfulness of "
+  "the iteration: (ARGNAME) no crossed argument slots at any internal call, (DIRECTION) d = subspace point - x from "
+  "the Cauchy point of the current (x, g), (OFFER) every accepted step is offered to the memory, (STEPINIT) initial "
+  "step / slope / failure classification of the line search incl. the documented first-iteration cap, (BFGSFORM) "
+  "theta and the compact matrices assembled as in the reference, (CPFORM) Cauchy-point formulas, (ESC)+(SF4) stored "
+  "gradients are private copies so correction pairs are genuine differences, (NITOFF) the iteration index that "
+  "selects the first-iteration policy is the same in a retained state and in a run stopped there.",
+  "iterate-by-iterate agreement with the Fortran reference in floating point; the subspace solve; SciPy's dcsrch",
   design="3/C12")
-P("C13", ["FILT", "SEED", "FLOW", "MEM"],
+P("C13", ["FILT", "SEED", "FLOW", "MEM", "FILTERWALK", "DOWNHILL"],
   "(FILT) must-pass-through with path-correlation pruning: from every call of the user's update function every "
   "path to a consumer of G (matrix update, callback state, returned result) passes the curvature filter whose "
   "result rebinds X, G; (SEED) the filter seeds its output with the newest element and only grows on the left; "
-  "(FLOW) argument / target order of both calls; (MEM) the filter's insertions are guarded by the curvature test.",
+  "(FLOW) argument / target order of both calls; (MEM) the filter's insertions are guarded by the curvature test "
+  "against the retained neighbour; (FILTERWALK) the filter visits every older point, newest to oldest; (DOWNHILL) "
+  "the line search measures progress against the f0 handed in by the caller (which the update function has "
+  "rewritten), never against a value cached before the redefinition.",
   "bit-identity under the identity update function, equality with a restart on the new objective", design="3/C13")
 P("C14", ["OWN", "SHARED", "LOGNI", "NONDET"],
   "The schedule quantifier is reduced to confinement: (OWN) interprocedural may-alias analysis shows no in-place "
@@ -157,9 +172,11 @@ P("C19", ["AD"],
   "subset they use into closed-form sympy expressions over x0..x(n-1); d f / d x_i minus the translated gradient "
   "must be identically zero (simplify, else exact evaluation at rational points with 60 digits) for n = 1..N.",
   "symbolic n (fixed n <= 6 quick / 12 thorough)", design="3/C19")
-P("C20", ["EXC", "SHARED"],
+P("C20", ["EXC", "SHARED", "OWN"],
   "(EXC) the set U of functions that may transitively run a user callable is a least fixpoint over the resolved "
   "call graph from the seven user-callable parameters; every call site of U lies outside every try body whose "
   "handlers do more than re-raise, every jumping finally and every non-transparent context manager; (SHARED) "
-  "there is no module-, class- or default-argument state a failed run could leave modified.",
+  "there is no module-, class- or default-argument state a failed run could leave modified; (OWN) no in-place write "
+  "reaches a caller-owned object, so a run that fails part-way has not changed the arguments an identical "
+  "follow-up call would receive.",
   "nothing numerical; re-entrancy of numpy/scipy is trusted", design="3/C20")
